@@ -128,12 +128,13 @@ impl Prop for Stack {
     type Case = StackCase;
     const ID: &'static str = "C01";
     const NAME: &'static str = "stack";
+    const TRACK_STALL: bool = true;
     fn rule() -> &'static str {
         "streams of link frames (any control byte, addressed to us / others / broadcast, transport headers with arbitrary FIR/FIN/sequence, payloads 0..250, optionally damaged or interleaved with noise) under generated chunkings, both roles, both link error modes, every rx buffer size 249..2048 and every combination of the four decode levels, read through transport::real::reader::Reader (link Layer + assembler) until the stream ends; every delivered fragment is then pushed through the application parser consumers; oracle: no panic, the reader always returns; non-trivial = at least one frame passed the CRCs and reached the transport function"
     }
     fn cases(tier: Tier) -> u32 {
         match tier {
-            Tier::Quick => 60_000,
+            Tier::Quick => 120_000,
             Tier::Thorough => 6_000_000,
         }
     }
@@ -223,7 +224,8 @@ pub enum Step {
     RawSegment(Vec<u8>),
     /// raw octets straight onto the wire
     RawBytes(Vec<u8>),
-    /// a well-formed request that moves the session: 0 READ class 1-3, 1 READ class 0, 2 ENABLE_UNSOLICITED, 3 SELECT, 4 big OPERATE, 5 DELAY_MEASURE, 6 g110/g111 end-of-range, 7 DISABLE_UNSOLICITED
+    /// a well-formed request that moves the session: 0 READ class 1-3, 1 READ class 0, 2 ENABLE_UNSOLICITED, 3 SELECT, 4 big OPERATE, 5 DELAY_MEASURE, 6 g110/g111 end-of-range, 7 DISABLE_UNSOLICITED,
+    /// 8 READ all device attributes (g0v254), 9 READ attribute list (g0v255), 10 READ one attribute, 11 WRITE an attribute
     Request(u8),
     Update(u8, u8),
     Confirm(bool, u8, bool),
@@ -251,13 +253,14 @@ impl Prop for OutstationScript {
     type Case = ScriptCase;
     const ID: &'static str = "C01";
     const NAME: &'static str = "outstation_script";
+    const TRACK_STALL: bool = true;
     fn rule() -> &'static str {
         "hostile session scripts against a real outstation session (real link layer, transport function, ServerTask loop): grammar+mutated fragments, raw transport segments, raw wire bytes, well-formed requests that move the session (event polls -> solicited confirm wait, unsolicited enable + updates -> unsolicited confirm wait, SELECT, oversized OPERATE, end-of-range octet strings), database updates into event buffers of 1-3, right/wrong confirms, time advances, reconnects; configuration generated: link error mode, four decode-level axes, rx/tx buffer sizes 249..2048, unsolicited on/off, max_controls; oracle: no panic, no busy loop (poll counter at one virtual instant), and after the script the endpoint still serves: link status request -> LINK_STATUS, READ class 0 with a fresh sequence number -> response with that number (Close mode: on the next connection); non-trivial = an injected item that reached the transport/application layer through valid CRCs while the session was not idle, or any such item in general"
     }
     fn cases(tier: Tier) -> u32 {
         match tier {
-            Tier::Quick => 20_000,
-            Tier::Thorough => 2_000_000,
+            Tier::Quick => 60_000,
+            Tier::Thorough => 2_400_000,
         }
     }
     fn floors() -> Vec<(&'static str, u32)> {
@@ -268,7 +271,7 @@ impl Prop for OutstationScript {
             6 => frag_strategy().prop_map(Step::Fragment),
             1 => proptest::collection::vec(any::<u8>(), 0..40).prop_map(Step::RawSegment),
             1 => proptest::collection::vec(any::<u8>(), 1..40).prop_map(Step::RawBytes),
-            5 => (0u8..8).prop_map(Step::Request),
+            5 => (0u8..12).prop_map(Step::Request),
             3 => (any::<u8>(), any::<u8>()).prop_map(|(a, b)| Step::Update(a, b)),
             2 => (any::<bool>(), any::<u8>(), any::<bool>()).prop_map(|(r, s, u)| Step::Confirm(r, s, u)),
             2 => prop_oneof![Just(1u16), Just(99), Just(101), 0u16..300].prop_map(Step::Advance),
@@ -330,6 +333,8 @@ async fn run_script(case: &ScriptCase) -> CaseOut {
         }
         add_point(db, &PointSpec { ty: 7, index: 65535, class: 1, svar: 0, evar: 0 });
         add_point(db, &PointSpec { ty: 0, index: 65535, class: 2, svar: 1, evar: 3 });
+        let _ = db.define_attr(crate::app::attr::AttrProp::default(), crate::app::attr::StringAttr::DeviceManufacturersName.with_value("verif"));
+        let _ = db.define_attr(crate::app::attr::AttrProp::writable(), crate::app::attr::StringAttr::UserAssignedLocation.with_value("here"));
     });
     let mut seq = 0u8;
     let mut serial = 0u32;
@@ -384,7 +389,7 @@ async fn run_script(case: &ScriptCase) -> CaseOut {
             }
             Step::Request(k) => {
                 seq = (seq + 1) & 0x0F;
-                let f = match k % 8 {
+                let f = match k % 12 {
                     0 => read_classes(seq, &[1, 2, 3]),
                     1 => read_classes(seq, &[0]),
                     2 => enable_unsol(seq, true, &[1, 2, 3]),
@@ -396,7 +401,11 @@ async fn run_script(case: &ScriptCase) -> CaseOut {
                         o.extend(ra::h_range16(1, 0, 65535, 65535, &[]));
                         Fragment::request(seq, func::READ, o)
                     }
-                    _ => enable_unsol(seq, false, &[1, 2, 3]),
+                    7 => enable_unsol(seq, false, &[1, 2, 3]),
+                    8 => Fragment::request(seq, func::READ, ra::h_range8(0, 254, 0, 0, &[])),
+                    9 => Fragment::request(seq, func::READ, ra::h_range8(0, 255, (seq % 2), (seq % 2), &[])),
+                    10 => Fragment::request(seq, func::READ, ra::h_range8(0, 252, 0, 0, &[])),
+                    _ => Fragment::request(seq, func::WRITE, ra::h_range8(0, 245, 0, 0, &[1, 3, b'x', b'y', b'z'])),
                 };
                 let framed = rig.frame_fragment(MASTER_ADDR, OUTSTATION_ADDR, &f.encode());
                 send_chunked(&mut rig, &framed, case.chunk);
